@@ -144,8 +144,10 @@ def main(argv=None):
 
     # verdict
     rc = 0
-    for key, cnt in sorted(kf_seen.items()):
-        print(f"KNOWN-FINDING: property={check_id} {known_keys[key]['what']} [key={key}; seen {cnt}x]")
+    # one line per listed open finding of this property, observed in this run or not (the count says which)
+    for key in sorted(known_keys):
+        cnt = kf_seen.get(key, 0)
+        print(f"KNOWN-FINDING: property={check_id} {known_keys[key]['what']} [key={key}; seen {cnt}x in this run]")
     replay_dir = os.path.join(ROOT, "replays", check_id)
     seen_sig = set()
     for case, viol in new_violations:
